@@ -9,7 +9,7 @@ import shutil
 import subprocess
 import time
 
-VERIF = "/verif"
+VERIF = os.path.dirname(os.path.dirname(os.path.abspath(__file__)))
 NIGHTLY = "nightly-x86_64-unknown-linux-gnu"
 
 
